@@ -20,6 +20,7 @@ var zzErrRollback = errors.New("harness: roll back")
 
 type zzC08World struct {
 	*zzMgrWorld
+	prefix   string
 	scope    KeyScope
 	issued   []ManagedAddress // committed issues only
 	height   int32
@@ -143,7 +144,7 @@ func (w *zzC08World) compare() bool {
 	ok := true
 	eq := func(c bool, label string) {
 		verifrt.Observe("query", label)
-		verifrt.Assert(c, "c08-"+label)
+		verifrt.Assert(c, w.prefix+label)
 		if !c {
 			ok = false
 		}
@@ -212,7 +213,7 @@ func (w *zzC08World) compare() bool {
 }
 
 func zzC08(steps int) {
-	w := &zzC08World{zzMgrWorld: zzNewMgrWorld(zzSeedA), scope: KeyScopeBIP0084}
+	w := &zzC08World{zzMgrWorld: zzNewMgrWorld(zzSeedA), scope: KeyScopeBIP0084, prefix: "c08-"}
 	for s := 0; s < steps; s++ {
 		w.step()
 		if !w.compare() {
